@@ -235,8 +235,12 @@ def monitor(ck, prog, res, stats):
             a, f = delivered[classes.index("abortable")]
             abort_exc = ABORTABLE_AT[(a, f["code"])]
             stats["abortable_faults"] = stats.get("abortable_faults", 0) + 1
-            if name == "send_offsets" and (c["result"] != "exc" or c.get("exc") != abort_exc):
-                viol(f"send_offsets_to_transaction did not raise {abort_exc}", "abortable-not-reported")
+            if c["result"] != "exc" or c.get("exc") != abort_exc:
+                viol(f"{name} did not fail with {abort_exc} although that abortable error arrived: "
+                     f"{c['result']} {c.get('exc')}", "abortable-not-reported")
+            if name.startswith("send") and any(a == "Produce" for a, _ in c["requests"]):
+                viol(f"the batch waiting for the partition that could not be added was produced: {c['requests']}",
+                     "abortable-batch-produced")
             ref = "abortable"
             prev_view = view
             continue
@@ -248,6 +252,10 @@ def monitor(ck, prog, res, stats):
         if name == "begin":
             ref = "in_txn"
         elif name in ("commit", "abort", "ctx_ok", "ctx_exc"):
+            # whatever way the transaction ended, the coordinator must not keep it open
+            if (c.get("coord") or {}).get("state") == "Ongoing":
+                viol(f"{name} returned but the coordinator still has the transaction open: {c['coord']}",
+                     "ended-but-coordinator-ongoing")
             ref = "ready"
             abort_exc = None
         prev_view = view
